@@ -78,6 +78,26 @@ func main() {
 		die(err)
 	}
 	stats := map[string]int{}
+	// pre-pass: field names of jwt.IDTokenClaims (handlers of other packages write them through a pointer
+	// obtained from the session: `claims := sess.IDTokenClaims(); claims.X = ...`)
+	for d, files := range byDir {
+		if filepath.Base(d) != "jwt" {
+			continue
+		}
+		for _, f := range files {
+			af, err := parser.ParseFile(token.NewFileSet(), f, nil, 0)
+			if err != nil {
+				continue
+			}
+			for name, flds := range collectStructs(map[string]*ast.File{f: af}) {
+				if name == "IDTokenClaims" {
+					for fn := range flds {
+						claimsFields[fn] = true
+					}
+				}
+			}
+		}
+	}
 	dirs := make([]string, 0, len(byDir))
 	for d := range byDir {
 		dirs = append(dirs, d)
@@ -112,6 +132,13 @@ func main() {
 				continue
 			}
 			eds := rewrite(fset, af, structs, globals, !*noAccess, stats)
+			if !*noAccess {
+				ce := rewriteClaims(fset, af, srcs[f], stats)
+				if len(ce) > 0 && !hasHookImport(eds) {
+					ce = append(ce, edit{off: fset.Position(af.Name.End()).Offset, text: `; import verifhook "` + hookImport + `"`})
+				}
+				eds = append(eds, ce...)
+			}
 			if len(eds) == 0 {
 				if *as != "" {
 					// shadow mode: every file of the scratch tree replaces its counterpart
@@ -857,6 +884,167 @@ func (g *globalRewriter) own(st ast.Stmt, note func(string, bool)) {
 		}
 	}
 	stmt(st)
+}
+
+var claimsFields = map[string]bool{}
+
+func hasHookImport(eds []edit) bool {
+	for _, e := range eds {
+		if strings.Contains(e.text, "import verifhook") {
+			return true
+		}
+	}
+	return false
+}
+
+// rewriteClaims instruments accesses to the ID-token claims object that handlers reach through the session:
+//
+//	claims := sess.IDTokenClaims(); claims.F = v        and        sess.IDTokenClaims().F = v
+//
+// The object is shared by every request that holds the same session, so these are the accesses a session-sharing
+// bug races on.
+func rewriteClaims(fset *token.FileSet, f *ast.File, src []byte, stats map[string]int) []edit {
+	if len(claimsFields) == 0 {
+		return nil
+	}
+	off := func(p token.Pos) int { return fset.Position(p).Offset }
+	var eds []edit
+	isAccessor := func(e ast.Expr) bool {
+		c, ok := e.(*ast.CallExpr)
+		if !ok || len(c.Args) != 0 {
+			return false
+		}
+		se, ok := c.Fun.(*ast.SelectorExpr)
+		return ok && se.Sel.Name == "IDTokenClaims"
+	}
+	for _, d := range f.Decls {
+		fd, ok := d.(*ast.FuncDecl)
+		if !ok || fd.Body == nil {
+			continue
+		}
+		// locals bound to the claims object
+		locals := map[*ast.Object]bool{}
+		ast.Inspect(fd.Body, func(n ast.Node) bool {
+			if as, ok := n.(*ast.AssignStmt); ok && len(as.Lhs) == len(as.Rhs) {
+				for i, r := range as.Rhs {
+					if id, ok := as.Lhs[i].(*ast.Ident); ok && id.Obj != nil && isAccessor(r) {
+						locals[id.Obj] = true
+					}
+				}
+			}
+			return true
+		})
+		var block func(list []ast.Stmt)
+		visitStmt := func(st ast.Stmt, at token.Pos) {
+			type acc struct {
+				base  string
+				field string
+				w     bool
+			}
+			var found []acc
+			baseOf := func(e ast.Expr) (string, bool) {
+				if id, ok := e.(*ast.Ident); ok && id.Obj != nil && locals[id.Obj] {
+					return id.Name, true
+				}
+				if isAccessor(e) {
+					return string(src[off(e.Pos()):off(e.End())]), true
+				}
+				return "", false
+			}
+			writes := map[ast.Expr]bool{}
+			switch x := st.(type) {
+			case *ast.AssignStmt:
+				for _, l := range x.Lhs {
+					e := l
+					for {
+						if ix, ok := e.(*ast.IndexExpr); ok {
+							e = ix.X
+							continue
+						}
+						break
+					}
+					writes[e] = true
+				}
+			case *ast.IncDecStmt:
+				writes[x.X] = true
+			}
+			ast.Inspect(st, func(n ast.Node) bool {
+				switch x := n.(type) {
+				case *ast.BlockStmt:
+					if n != st {
+						return false // nested lists are handled on their own
+					}
+				case *ast.FuncLit:
+					return false
+				case *ast.SelectorExpr:
+					if b, ok := baseOf(x.X); ok && claimsFields[x.Sel.Name] {
+						found = append(found, acc{b, x.Sel.Name, writes[x]})
+					}
+				}
+				return true
+			})
+			if len(found) > 0 {
+				var sb strings.Builder
+				seen := map[string]bool{}
+				for _, a := range found {
+					k := a.base + "." + a.field + fmt.Sprint(a.w)
+					if seen[k] {
+						continue
+					}
+					seen[k] = true
+					fmt.Fprintf(&sb, "verifhook.Access(%s, %q, %v); ", a.base, "IDTokenClaims."+a.field, a.w)
+				}
+				eds = append(eds, edit{off: off(at), text: sb.String()})
+				stats["claims"] += len(seen)
+			}
+		}
+		block = func(list []ast.Stmt) {
+			for _, st := range list {
+				// a declaration statement `claims := sess.IDTokenClaims()` itself has no field access
+				switch x := st.(type) {
+				case *ast.BlockStmt:
+					block(x.List)
+					continue
+				case *ast.IfStmt:
+					// header (init/cond) accesses are attributed to the if statement; bodies recursively
+					// the headers of the whole else-if chain are attributed to the outermost if
+					for cur := x; cur != nil; {
+						visitStmt(&ast.IfStmt{If: cur.If, Init: cur.Init, Cond: cur.Cond, Body: &ast.BlockStmt{}}, x.Pos())
+						block(cur.Body.List)
+						switch e := cur.Else.(type) {
+						case *ast.BlockStmt:
+							block(e.List)
+							cur = nil
+						case *ast.IfStmt:
+							cur = e
+						default:
+							cur = nil
+						}
+					}
+					continue
+				case *ast.ForStmt:
+					block(x.Body.List)
+					continue
+				case *ast.RangeStmt:
+					block(x.Body.List)
+					continue
+				case *ast.SwitchStmt:
+					for _, c := range x.Body.List {
+						block(c.(*ast.CaseClause).Body)
+					}
+					continue
+				case *ast.TypeSwitchStmt:
+					for _, c := range x.Body.List {
+						block(c.(*ast.CaseClause).Body)
+					}
+					continue
+				}
+				visitStmt(st, st.Pos())
+			}
+		}
+		block(fd.Body.List)
+	}
+	return eds
 }
 
 func apply(src []byte, eds []edit) []byte {
